@@ -324,6 +324,28 @@ class Crate:
             if len(c) == 1:
                 return c[0]
         if not c:
+            # the NAMES of generic parameters are not part of an item's identity either where they sit inside a type
+            # (`<Modular<M> as Add>::add` after `const M` was renamed to `MOD`): lists of plain identifiers that are not
+            # primitive types are compared as placeholders, one per position
+            import re as _re
+
+            prim = {"u8", "u16", "u32", "u64", "u128", "usize", "i8", "i16", "i32", "i64", "i128", "isize", "f32", "f64", "bool", "char", "str", "f80"}
+
+            def blank(p):
+                def rep(m):
+                    ids = [x.strip() for x in m.group(1).split(",")]
+                    if any(x in prim for x in ids):
+                        return m.group(0)
+                    return "<%s>" % ",".join("_" for _x in ids)
+                return _re.sub(r"<((?:'?[A-Za-z_][A-Za-z0-9_]*)(?:\s*,\s*'?[A-Za-z_][A-Za-z0-9_]*)*)>", rep, p)
+
+            want = blank(path_suffix)
+            if want != path_suffix or True:
+                c = [b for b in self.bodies if not b.is_closure and (blank(b.path) == want or blank(b.path).endswith("::" + want))]
+                if len(c) == 1:
+                    return c[0]
+                c = []
+        if not c:
             # an item moved to another module of the crate (and re-exported at the old path) keeps its name, its self
             # type and its trait: compare with the module qualifiers (snake_case segments in front of a name) removed
             import re as _re
